@@ -38,6 +38,7 @@ EXPLANATION = (
     "compression, so find() cannot cycle; (CENSUS) all "
     "panic-capable sites of the four crates are enumerated and classified (contract / guarded / unreviewed) as evidence."
     " (K10 absent=>Err) solve() returns an error when no global `start` exists, which is what keeps the lowering's `.find(..).unwrap()` from meeting None."
+    " (VEC-BOUNDS) the same interpretation tracks the least length of vectors the parser builds and the flags derived from token tests: a `remove(0)` is only reached with an element to remove."
     ' (UNSIGNED-SUB) every unsigned subtraction is listed with the invariant that keeps it from underflowing, or saturates; (GUARD guard-key-is-stable / output-size-bounded) a visited-set guard is not defeated by nodes created during the recursion, and unfolding the type graph into a tree is bounded (two known findings).'
     " (PROGRESS) by abstract interpretation of sylt-parser (cursor position relative to the loop head: same / further / strictly further; what is known about the token under the cursor; summaries per parsing function as a greatest fixed point): every loop driven by a token cursor advances it strictly on every path back to its head - at the latest after two more iterations, which is how the error-recovery loops of module() and block() work - and is left when the cursor is at the end of the input; callbacks handed to the generic list parser never move the cursor backwards."
 )
@@ -141,6 +142,16 @@ def parser_progress(F, rep):
         rep.ob("PROGRESS", "callable|%s->%s|%s" % (last(caller), cal, re.sub(r"[^A-Za-z0-9_:]", "", what)[:30]), ok,
                "a parser callback handed to %s never moves the cursor backwards (%s): %s" % (cal, what, detail), where)
     rep.floor("PROGRESS", "parser callbacks checked", n, 6)
+    # vectors built by the parser and then read at a fixed position (`exprs.remove(0)` for a parenthesised expression): the
+    # same interpretation tracks how many elements the vector holds at least and which flags were derived from which token
+    ns = 0
+    for (fnp, what), e in sorted(A.sites.items()):
+        ns += 1
+        rep.ob("VEC-BOUNDS", "%s|%s" % (last(fnp, 2) if fnp.count("::") > 1 else fnp, what), e["ok"],
+               "on every path to `%s` the vector holds an element at that position" % what if e["ok"] else
+               "`%s` can be reached with the vector too short - the parser panics (`removal index should be < len`); path: %s"
+               % (what, " | ".join(e["trails"]) or "?"), e["where"])
+    rep.floor("VEC-BOUNDS", "fixed-position removals from vectors the parser builds", ns, 2)
     rep.info("PROGRESS summaries (cursor returned relative to the argument): " + "; ".join(
         "%s %s%s" % (last(p), progress.show(sm["ret"]), "" if sm["eof_ok"] else " [no Ok at EOF]") for p, sm in sorted(A.summaries.items())))
 
